@@ -59,6 +59,12 @@ def _sa_case(d):
 def sa_char_chunks(d):
     """C08: text in byte mode whose bytes are not one per character (multi-byte effective encoding): the content is cut
     by characters and every chunk chooses its own encoding. Symptoms limited to overflow / payload / parity."""
+    if d['kind'] == 'admissible-sequence-refused':
+        # the same mechanism seen as a refusal: the mode comes from the whole text, a chunk converted on its own (other
+        # encoding than the whole) is not representable in that mode - e.g. '語①': UTF-8 bytes of the whole look like
+        # kanji pairs, the chunk '①' alone does not
+        return d['detail'].get('type') == 'ValueError' and d['detail'].get('per_chunk_mode_conflict') is True \
+            and isinstance(d['case'].get('content'), str)
     if d['kind'] != 'sequence':
         return False
     case, det, content, text = _sa_case(d)
